@@ -8,6 +8,7 @@ fn main() {
         "C08" => vp_sig::c08::run(&mut ctx),
         "C11" => vp_sig::c11::run(&mut ctx),
         "C17" => vp_sig::c17::run(&mut ctx),
+        "C18" => vp_sig::c18::run(&mut ctx),
         "C19" => vp_sig::c19::run(&mut ctx),
         "C20" => vp_sig::c20::run(&mut ctx),
         other => {
